@@ -52,8 +52,14 @@ def _(c):
     c.hints['q'] = dict(cls='ArrayDelayQueue', exact=True)
     c.requires('wf_sim(sim) and wf_queue(q) and q.num_reactions == sim.num_reactions')
     c.requires('len(timepoints) >= 1')
+    c.requires('timepoints[0] >= sim.initial_time')
     c.assume('forall(lambda k: U(k) > 0)', 'uniform_rv() == 0 excluded')
     main = c.loop(0)
+    # "at the firing time plus a delay ... to the resolution of the time grid": slot k is delivered at q.next_queue_time + k*q.dt, so a firing
+    # at time t queued at slot_of(q, t + delay) is delivered within one slot of t + delay only if the queue's clock IS the simulation clock:
+    # the next delivery time is never in the past and never more than one slot ahead of the current time (from the statement, not the code)
+    main.invariant('current_time <= q.next_queue_time and q.next_queue_time <= current_time + q.dt', label='delay-queue-clock-is-the-simulation-clock')
+    main.invariant('current_index == num_timepoints or c_timepoints[current_index] >= current_time', label='next-row-is-not-in-the-past')
     main.also_modifies('kappa', 'ghost:pvals', 'c_current_state', 'c_propensity', 'c_results', 'c_q_rxn_amt', 'q.queue',
                        'q.next_queue_time', 'q.start_index')
     main.invariant('current_index <= num_timepoints', label='index')
